@@ -165,7 +165,8 @@ def status_literals(repo, roots):
                 lits.add(n.value)
         for s in sites:
             if s.caller is f or _root(s.caller) is f:
-                if isinstance(s.callee, Func):
+                if isinstance(s.callee, Func) and s.kind != "ctor" and s.callee.module == "simulation" \
+                        and s.callee.cls is None:
                     todo.append(s.callee)
     return lits
 
